@@ -218,8 +218,10 @@ def run(ctx):
     # it; what the code does wrong it does then too.  A failure that does not come back is left out of the verdict and
     # counted in the evidence file.  (The known finding is attributed by the library's own log, not by re-running.)
     LOGGED = ("C13/loss/drop-when-full", "C13/dial/disconnect-after-successful-dial")     # identified by the library's own log
-    known = [c for c in found if c["key"] in LOGGED]
-    cands = [c for c in found if c["key"] not in LOGGED]
+    # (a child that crashed on malformed input, or did not finish a one-second case within its 20 s, is reported as it is: the
+    # one such hang that did not come back on its own was a genuine deadlock, fix 4ae63af)
+    known = [c for c in found if c["key"] in LOGGED or c["key"].startswith("C13/malformed/")]
+    cands = [c for c in found if not (c["key"] in LOGGED or c["key"].startswith("C13/malformed/"))]
     confirmed, unreproduced = [], []
     if cands:
         scens, seen = [], set()
